@@ -99,7 +99,37 @@ def line_ops(rng, data):
     return b'\n'.join(lines)
 
 
+def segy_like(rng):
+    """3200 bytes of EBCDIC card images 'Cnn ...' (SEG-Y textual header), valid or nearly so."""
+    cards = []
+    bad = rng.randrange(40) if rng.random() < 0.75 else None
+    for i in range(40):
+        num = '%2d' % (i + 1) if rng.random() < 0.5 else '%02d' % (i + 1)
+        head = 'C'
+        if i == bad:
+            k = rng.randrange(6)
+            if k == 0:
+                num = rng.choice(['AA', '  ', 'X1', '1X', '--', '+1', '1.', '4 ', '00', '41', '99'])
+            elif k == 1:
+                head = rng.choice(['c', 'D', ' ', '1'])
+            elif k == 2:
+                num = '%2d' % (i + 2)
+        text = (head + num + ' ' + ''.join(rng.choice('ABCDEFGHIJKLMNOPQRSTUVWXYZ 0123456789.,:-/') for _ in range(76)))[:80]
+        cards.append(text)
+    data = ''.join(cards).encode('cp037')
+    k = rng.random()
+    if k < 0.1:
+        data = data[:rng.choice([3199, 3198, 80, 3120])]
+    elif k < 0.2:
+        b = bytearray(data)
+        b[rng.randrange(len(b))] = rng.choice([0x00, 0xff, 0x41, 0x0a])
+        data = bytes(b)
+    return data + bytes(rng.getrandbits(8) for _ in range(rng.choice([0, 0, 400, 3600])))
+
+
 def near_miss(rng):
+    if rng.random() < 0.08:
+        return segy_like(rng)
     m = rng.choice(MAGICS)
     op = rng.randrange(7)
     tail = bytes(rng.getrandbits(8) for _ in range(rng.choice([0, 1, 8, 64, 300, 1500])))
